@@ -58,12 +58,46 @@ theorem nilSafe_of (f : TxForm) (h1 : ∀ v e, v ≠ .strNil → (f.dec v e).Nil
         rw [← hc]; exact this
       | drop v' ops r => rw [hd] at hc; simp [Act.eff] at hc
 
+theorem addInt_some {x : DsStr.S} {d : Int} {v' : DsStr.S} {n : Int} (h : DsStr.addInt x d = some (v', n)) :
+    ∃ b, v' = some b := by
+  unfold DsStr.addInt at h
+  simp only at h
+  split at h
+  · cases h
+  · split at h
+    · simp only [Option.some.injEq, Prod.mk.injEq] at h
+      exact ⟨_, h.1.symm⟩
+    · cases h
+
+theorem decAddInt_nilOut (k : Bytes) (d : Int) (neg : Bool) (v : Val) (e : Int) (hv : v ≠ .strNil) :
+    (decAddInt k d neg v e).NilOut v := by
+  have go : ∀ b : Bytes, (match (match (if neg then DsStr.decr (some b) d else DsStr.incr (some b) d) with
+        | none => none
+        | some (v', n) => some (some (Api.strVal v'), (none : Option Int), [Api.opSet k (formatInt n) false],
+            Out.many [.int n, .err false])) with
+      | some (v', e', ops, r) => Act.put v' e' ops r
+      | none => Act.keep (Out.many [.int 0, .err true])).NilOut (.str b) := by
+    intro b
+    cases hr : (if neg then DsStr.decr (some b) d else DsStr.incr (some b) d) with
+    | none => simp
+    | some q =>
+      obtain ⟨v', n⟩ := q
+      have : ∃ b', v' = some b' := by
+        cases neg
+        · exact addInt_some (by simpa [DsStr.incr] using hr)
+        · exact addInt_some (by simpa [DsStr.decr] using hr)
+      obtain ⟨b', rfl⟩ := this
+      simp [Api.strVal]
+  cases v with
+  | str b => exact go b
+  | strNil => exact absurd rfl hv
+  | _ => simp [decAddInt, decStrWrite]
+
 namespace Cmd
 
-/-- the nil-string region: `APPEND k ""` and a failing `INCR` on a missing key create one -/
+/-- none of the listed commands ever leaves a nil string behind (a fresh string key starts with the
+    empty, non-nil value); only a `raw` transaction has to say so itself -/
 def NilOK : Cmd → Prop
-  | append _ v => v ≠ []
-  | incrBy _ _ _ => False
   | raw f => f.NilSafe
   | _ => True
 
@@ -75,6 +109,7 @@ theorem nilSafe (c : Cmd) (now : Int) (hc : c.NilOK) : (c.form now).NilSafe := b
   · intro v e hv
     cases c
     case raw f => exact absurd ⟨f, rfl⟩ hraw
+    case incrBy k d neg => exact decAddInt_nilOut k d neg v e hv
     all_goals
       cases v <;>
       simp_all [form, decGet, decStrRead, decStrWrite, decSet, decSetXX, decGetSet, decAppend,
@@ -83,6 +118,10 @@ theorem nilSafe (c : Cmd) (now : Int) (hc : c.NilOK) : (c.form now).NilSafe := b
   · intro v0 h0
     cases c
     case raw f => exact absurd ⟨f, rfl⟩ hraw
+    case incrBy k d neg =>
+      simp only [form, Option.some.injEq] at h0
+      subst h0
+      exact decAddInt_nilOut k d neg (.str []) 0 (fun c => nomatch c)
     all_goals
       simp_all [form, decGet, decStrRead, decStrWrite, decSet, decSetXX, decGetSet, decAppend,
         decExpire, decPersist, decPush, decListMut, decListRead, decHset, decHdel, decHashRead, decSadd,
@@ -233,5 +272,78 @@ theorem sched_core : ∀ (steps : List Step) (t : Int) (s1 s2 : MState), Sim t s
       simp only [runSteps, stripPasses, List.filter_cons, Step.isPass, Bool.not_true, Bool.false_eq_true,
         if_false, Step.exec, endTime, Step.time, List.nil_append]
       exact this
+
+/-- every state a run reaches satisfies the invariant and shows no nil string -/
+theorem run_inv_lnil : ∀ (steps : List Step) (t : Int) (s : MState), StoreInvX s none t → LNil s t →
+    TimesOK t steps → (∀ st ∈ steps, st.OK s.pebble) →
+    StoreInvX (runSteps steps s).1 none (endTime t steps) ∧ LNil (runSteps steps s).1 (endTime t steps) ∧
+    (runSteps steps s).1.pebble = s.pebble := by
+  intro steps
+  induction steps with
+  | nil => intro t s h hl _ _; exact ⟨h, hl, rfl⟩
+  | cons st rest ih =>
+    intro t s h hl hto hok
+    obtain ⟨ht, hto'⟩ := hto
+    have hok' : ∀ st' ∈ rest, st'.OK s.pebble := fun st' hs => hok st' (by simp [hs])
+    have hst := hok st (by simp)
+    have fin : ∀ (s' : MState) (now : Int), t ≤ now → StoreInvX s' none t → LNil s' t → s'.pebble = s.pebble →
+        TimesOK now rest →
+        StoreInvX (runSteps rest s').1 none (endTime now rest) ∧ LNil (runSteps rest s').1 (endTime now rest) ∧
+        (runSteps rest s').1.pebble = s.pebble := by
+      intro s' now hn hi hl' hp' hto''
+      obtain ⟨a, b, c⟩ := ih now s' (hi.mono hn) (hl'.mono hn) hto'' (by rw [hp']; exact hok')
+      exact ⟨a, b, by rw [c, hp']⟩
+    cases st with
+    | cmd c now =>
+      change t ≤ now at ht
+      change TimesOK now rest at hto'
+      obtain ⟨hwf, hnil⟩ := hst
+      have sp := c.spec_run hwf h ht
+      have hl2 : LNil (c.run s now).1 t := by
+        intro hp2
+        have hp2' : s.pebble = true := by rw [← sp.peb]; exact hp2
+        exact lnil_tx (c.nilSafe now (hnil hp2')) ht sp hl hp2
+      exact fin _ now ht sp.inv hl2 sp.peb hto'
+    | del ks now =>
+      change t ≤ now at ht
+      change TimesOK now rest at hto'
+      obtain ⟨a, b, c⟩ := del_lnil ht ks (s, 0) h hl
+      have e := del_eq s now ks
+      show StoreInvX (runSteps rest (Api.del s now ks).1).1 none _ ∧ _
+      rw [e]
+      exact fin _ now ht a b c hto'
+    | keys pat now =>
+      change t ≤ now at ht
+      change TimesOK now rest at hto'
+      exact fin s now ht h hl rfl hto'
+    | rename key dst now =>
+      change t ≤ now at ht
+      change TimesOK now rest at hto'
+      have r := rename_spec h ht key dst
+      exact fin _ now ht r.inv (rename_lnil h ht key dst hl) r.peb hto'
+    | gc now =>
+      change t ≤ now at ht
+      change TimesOK now rest at hto'
+      have ps := gc_spec_at h ht (LNil.at h ht hl)
+      have hl2 : LNil (Store.gc s now) now := by
+        intro hp t' ht' k v e hlk
+        rw [ps.look t' ht' k] at hlk
+        exact hl (by rw [← ps.peb]; exact hp) t' (Int.le_trans ht ht') k v e hlk
+      obtain ⟨a, b, c⟩ := ih now (Store.gc s now) (ps.inv.mono ht) hl2 hto' (by rw [ps.peb]; exact hok')
+      exact ⟨a, b, c.trans ps.peb⟩
+    | flush now =>
+      change t ≤ now at ht
+      change TimesOK now rest at hto'
+      have ps := (flush_spec h ht).1
+      have hl2 : LNil (Store.flush s now) now := by
+        intro hp t' ht' k v e hlk
+        rw [ps.look t' ht' k] at hlk
+        exact hl (by rw [← ps.peb]; exact hp) t' (Int.le_trans ht ht') k v e hlk
+      obtain ⟨a, b, c⟩ := ih now (Store.flush s now) ps.inv hl2 hto' (by rw [ps.peb]; exact hok')
+      exact ⟨a, b, c.trans ps.peb⟩
+
+theorem empty_lnil (pebble : Bool) (t : Int) : LNil (empty pebble) t := by
+  intro _ t' _ k v e hl
+  simp [lookup, getMeta, empty, AList.get?] at hl
 
 end NodisVerif.Proofs.C11
